@@ -380,7 +380,7 @@ fn apply_write(buf: &mut Vec<u8>, off: u64, data: &[u8]) {
 
 #[derive(Clone, Copy, Debug, PartialEq, Eq, serde::Serialize, serde::Deserialize)]
 pub enum PowerChoice {
-    /// every file at its last synced content; pending directory operations lost
+    /// every file at its last synced content; directory entries persist
     DropAll,
     /// everything persisted except the last pending write
     DropLast,
@@ -520,8 +520,8 @@ impl Replayer {
         };
         // directory operations: lost as a suffix
         let keep_dir = match choice {
-            PowerChoice::DropAll => 0,
-            PowerChoice::DropLast | PowerChoice::TearLast(_) => self.pending_dir_ops.len(),
+            // the property's power-loss model: synced bytes and (all) directory entries persist
+            PowerChoice::DropAll | PowerChoice::DropLast | PowerChoice::TearLast(_) => self.pending_dir_ops.len(),
             PowerChoice::Random(_) => rng.usize_below(self.pending_dir_ops.len() + 1),
         };
         for i in &self.pending_dir_ops[..keep_dir] {
